@@ -60,6 +60,7 @@ def main():
             rc, out = sh('/venv/bin/python -m pytest -q -p no:cacheprovider -n 12 --timeout=900 tests', cwd=scratch,
                          timeout=7200)
             meta['suite_with_change'] = {'rc': rc, 'summary': out.strip().splitlines()[-1][:200],
+                                         'failed': [l[:200] for l in out.splitlines() if l.startswith('FAILED')][:10],
                                          'cmd': 'pytest -q -n 12 tests (whole suite, inside the scratch worktree)',
                                          'wall_s': round(time.time() - t0)}
         caught = {}
